@@ -21,7 +21,7 @@ def status_table():
     man = json.load(open(f"{ROOT}/MANIFEST.json"))
     kf = json.load(open(f"{ROOT}/known_findings.json"))["findings"]
     rows = ["| id | functions read from /repo (the first ones are under contract, the rest inlined or hooked) | named obl. / "
-            "path instances | bounded part | open findings | fixed |",
+            "path instances (proved) | bounded cases (not counted) | open findings | fixed |",
             "|---|---|---|---|---|---|"]
     claimed = {c["property_id"]: c for c in man["checks"]}
     props = [json.loads(l) for l in open(f"{ROOT}/properties.jsonl")]
@@ -42,8 +42,9 @@ def status_table():
             "executed closed code (obligations on its output)"
         extras = cov.get("extra_checks", [])
         bounded = [e for e in cov.get("bounded_parts", [])]
-        nb = "yes" if bounded or any(
-            isinstance(e, dict) and e.get("bounded") for e in extras) else ""
+        nb = str(cov.get("bounded_cases_not_counted_as_obligations", "")) \
+            if bounded or any(isinstance(e, dict) and e.get("bounded")
+                              for e in extras) else ""
         n_open = sum(1 for k in kf if k["property"] == pid
                      and k.get("status", "open") == "open")
         n_fix = sum(1 for k in kf if k["property"] == pid
